@@ -460,8 +460,16 @@ impl VcpSpec {
 
 /// A complete frame for a fixed-length message type; `body` is padded (with noise) or must fit.
 pub fn frame(r: &mut Rng, mtype: u8, seq: u16, body: &[u8]) -> Vec<u8> {
+    frame_seg(r, mtype, seq, body, 1, 1)
+}
+
+/// A frame that is segment `number` of `segments` of a segmented message (the RDA numbers the
+/// frames of its long metadata messages 1/n .. n/n).
+pub fn frame_seg(r: &mut Rng, mtype: u8, seq: u16, body: &[u8], segments: u16, number: u16) -> Vec<u8> {
     assert!(body.len() <= FRAME_BODY);
-    let h = random_header(r, mtype, seq, body.len());
+    let mut h = random_header(r, mtype, seq, body.len());
+    h.segments = segments;
+    h.segment_number = number;
     let mut v = h.encode();
     v.extend_from_slice(body);
     let mut pad = vec![0u8; FRAME - v.len()];
@@ -492,12 +500,18 @@ pub fn clutter_filter_map(tape: &mut Tape, r: &mut Rng, max_segments: usize, big
         2 => tape.draw(max_segments as u64 + 1) as usize,
         _ => max_segments,
     };
-    let zone_mode = tape.weighted(&[5, 2, 1]);
+    let zone_mode = tape.weighted(&[5, 2, 1]) as u64;
     let big_at = if big_zone && nseg > 0 && tape.draw(3) == 2 {
         Some((tape.draw(nseg as u64) as usize, tape.draw(360) as usize, 26 + tape.draw(65510) as usize))
     } else {
         None
     };
+    clutter_filter_map_with(r, nseg, zone_mode, big_at)
+}
+
+/// `zone_mode` 0: 1..4 zones, 1: 0..25, 2: 0 or 25, 3: 40..60 zones in every azimuth (bodies above
+/// 16 MiB for about 200 segments or more), 4: 0..1 zones (compact maps).
+pub fn clutter_filter_map_with(r: &mut Rng, nseg: usize, zone_mode: u64, big_at: Option<(usize, usize, usize)>) -> (Vec<u8>, CfmRef) {
     let date = 1 + r.below(30000) as u16;
     let minutes = r.below(1440) as u16;
     let mut v = Vec::new();
@@ -513,7 +527,9 @@ pub fn clutter_filter_map(tape: &mut Tape, r: &mut Rng, max_segments: usize, big
             let mut count = match zone_mode {
                 0 => 1 + r.below(4) as usize,
                 1 => r.below(26) as usize,
-                _ => r.below(2) as usize * 25,
+                2 => r.below(2) as usize * 25,
+                3 => 40 + r.below(21) as usize,
+                _ => r.below(2) as usize,
             };
             if let Some((bs, ba, bc)) = big_at {
                 if bs == s && ba == a {
@@ -525,7 +541,8 @@ pub fn clutter_filter_map(tape: &mut Tape, r: &mut Rng, max_segments: usize, big
             let mut zones = Vec::with_capacity(count);
             for _ in 0..count {
                 let op = r.below(3) as u16;
-                let end = r.below(512) as u16;
+                // 511 km is the conventional end of the last zone; it also occurs elsewhere
+                let end = if r.below(8) == 0 { 511 } else { r.below(512) as u16 };
                 v.extend_from_slice(&be16(op));
                 v.extend_from_slice(&be16(end));
                 zones.push((op, end));
